@@ -164,6 +164,35 @@ example : AllCoherent (nrun nToyGood State.init [.query 1 0, .mutate 0, .query 0
 example : ((nquery nToyGood 1 (nquery nToyGood 1 (nquery nToyGood 1 State.init 0 0).state 0 1).state
     0 2).state.cache.map (·.arg)) = [2, 1] := by decide
 
+/-- **Coherence with raising calls** (round 4).  A history may contain, besides mutators, queries
+and evictions, calls that *raise* — before any nested cached call, between two of them, or inside
+a nested call at any depth (`path`).  The nested calls that returned keep their cache entries,
+the raising call stores nothing.  Every query of such a history still returns what a newly
+constructed object computes from the current fields. -/
+theorem ncoherent_with_exceptions_from (t : NTable) (hwf : nwf t = true) (ops : List XOp)
+    (s : State) (h : NInv t s) : AllCoherent (xrun t s ops) := by
+  induction ops generalizing s with
+  | nil => intro o ho; simp [xrun] at ho
+  | cons op ops ih =>
+    obtain ⟨hinv, hout⟩ := xinv_step t hwf s op h
+    intro o ho r c hrc
+    simp only [xrun, List.mem_cons] at ho
+    rcases ho with rfl | ho
+    · exact hout r c hrc
+    · exact ih _ hinv o ho r c hrc
+
+theorem ncoherent_with_exceptions (t : NTable) (hwf : nwf t = true) (ops : List XOp) :
+    AllCoherent (xrun t State.init ops) :=
+  ncoherent_with_exceptions_from t hwf ops State.init (ninv_init t)
+
+/-- non-vacuity: method 1 calls method 0; `1(0)` raises after its nested call returned: the callee's
+entry is there (the next `0(0)` is a hit), nothing is stored for method 1 -/
+example : ((nabort nToyGood 2 State.init 1 0 [1]).cache.map (·.m)) = [0] := by decide
+example : ((nabort nToyGood 2 State.init 1 0 [0]).cache.map (·.m)) = [] := by decide
+example : AllCoherent (xrun nToyGood State.init
+    [.raises 1 0 [1], .op (.mutate 0), .op (.query 1 0), .raises 1 0 [0, 0], .op (.query 0 0)]) :=
+  ncoherent_with_exceptions nToyGood (by decide) _
+
 end Pyunicorn.Memo
 
 
@@ -286,6 +315,13 @@ theorem ncoherent_all (name : String) (t : NTable) (h : (name, t) ∈ allNTables
   have := nwf_all
   rw [List.all_eq_true] at this
   exact ncoherent_of_wf t (this (name, t) h) ops
+
+/-- … also when calls raise at any point of their nested computation -/
+theorem ncoherent_with_exceptions_all (name : String) (t : NTable) (h : (name, t) ∈ allNTables)
+    (ops : List XOp) : AllCoherent (xrun t State.init ops) := by
+  have := nwf_all
+  rw [List.all_eq_true] at this
+  exact ncoherent_with_exceptions t (this (name, t) h) ops
 
 /-! #### round 4: the assignment tables (constructor and every public mutator) of the current source -/
 open Pyunicorn.Mode in
